@@ -36,7 +36,7 @@ META = {
     "design_ref": "DESIGN.md §4 C18",
 }
 
-ACTIONS = ["SubstStep", "DoitA", "RebuildA", "PickleA", "CleanupA", "Vary"]
+ACTIONS = ["Xreplace", "Subs", "DoitA", "RebuildA", "PickleA", "CleanupA", "VaryArg", "VaryPool"]
 
 
 def run(chk, replay=None):
@@ -48,23 +48,33 @@ def run(chk, replay=None):
         "a replacement term that mentions a bound index symbol (capture), a repeated index symbol within one sum and "
         "symbolic pool values are outside the statement and not generated",
     )
-    # 1. the laws, exhaustively on the small universe -------------------------------------
+    # 1. the laws, exhaustively on the small universe (TLC jobs run side by side, <= 6 workers in total)
+    from concurrent.futures import ThreadPoolExecutor
+
     if tier == "thorough":
         cfg = P.pool_cfg(max_ops=2, leafs=("x",), vals=("1",), poolset="PoolsSmall", max_idx=2, max_inner_idx=1)
     else:
         cfg = P.pool_cfg(max_ops=1)
-    res = tlc.run("ExprOps_MC", cfg, workers=6, coverage=True, fast_start=False, timeout=1500)
+    with ThreadPoolExecutor(max_workers=4) as ex:
+        f_main = ex.submit(tlc.run, "ExprOps_MC", cfg, workers=3, fast_start=False, timeout=1500)
+        # vacuity: every action must have been taken (coverage run on the smaller graph configuration)
+        f_cov = ex.submit(tlc.run, "ExprOps_MC", P.pool_cfg(init="PoolGraphInit", max_ops=1), workers=1, coverage=True, timeout=600)
+        # sensitivity: the named deviations must break the laws in the model
+        f_dev = {dev: ex.submit(tlc.run, "ExprOps_MC", P.pool_cfg(init="PoolGraphInit", max_ops=1, dev=dev), workers=1, timeout=600)
+                 for dev in ("DevBoundIndexSubs", "DevDropUnusedIndex")}
+        res, cov = f_main.result(), f_cov.result()
+        devres = {k: f.result() for k, f in f_dev.items()}
     chk.add_tlc("laws_exhaustive", res)
     if not res.ok:
         raise Machinery(f"the specification violates its own laws ({res.violated}): specification error\n" + "\n".join(res.error_trace[:60]))
-    dead = [a for a in ACTIONS if res.coverage.get(a, 0) == 0]
-    if dead:
-        raise Machinery(f"vacuous model check: actions never taken {dead} (coverage {res.coverage})")
+    totals = P.action_totals(cov)
+    dead = [a for a in ACTIONS if totals.get(a, 0) == 0]
+    if dead or not cov.ok:
+        raise Machinery(f"vacuous model check: actions never taken {dead} (coverage {totals})")
+    chk.part("laws_exhaustive", transitions_per_action_in_coverage_run=totals)
     chk.cov["exhaustive"] = True
-    # 1b. sensitivity: the named deviations must break the laws in the model
     sens = {}
-    for dev in ("DevBoundIndexSubs", "DevDropUnusedIndex"):
-        r = tlc.run("ExprOps_MC", P.pool_cfg(init="PoolInitD1", max_ops=1, dev=dev), workers=2, timeout=600)
+    for dev, r in devres.items():
         if r.ok:
             raise Machinery(f"model is insensitive: deviation {dev} does not violate InvLaws")
         sens[dev] = r.violated
@@ -77,11 +87,11 @@ def run(chk, replay=None):
     t0 = time.time()
     nsim, depth = (1500, 9) if tier == "thorough" else (260, 8)
     sim_small = P.pool_cfg(init="PoolInit", ctxs="PoolCtxs", max_ops=6, max_depth=6, nest_anytime=True, check=False)
-    behs = tlc.simulate("ExprOps_MC", sim_small, num=nsim, depth=depth, seed=chk.seed + 1, timeout=900)
+    behs = P.simulate_parallel("ExprOps_MC", sim_small, num=nsim, depth=depth, seed=chk.seed + 1, jobs=5)
     sim_big = P.pool_cfg(init="F2", ctxs="PoolCtxs", max_ops=6, max_depth=6, nest_anytime=True, leafs=("x", "y"),
                          idxs=("i", "j", "k"), vals=("1", "3"), poolset="PoolsFull", max_idx=2, check=False)
     nbig = 500 if tier == "thorough" else 60
-    behs_big = tlc.simulate("ExprOps_MC", sim_big, num=nbig, depth=depth, seed=chk.seed + 2, timeout=900)
+    behs_big = P.simulate_parallel("ExprOps_MC", sim_big, num=nbig, depth=depth, seed=chk.seed + 2, jobs=5)
     for b in behs + behs_big:
         rep.replay(b)
     chk.part("simulation_replay", behaviours=len(behs) + len(behs_big), steps=rep.steps, states_checked=rep.states_checked,
@@ -143,9 +153,7 @@ def run(chk, replay=None):
 
 def classify_trace_reject(chk, clause, rec):
     """Trace_Expr rejected a record: re-run the operation on the real object for the detail and signature."""
-    import sympy as sp  # noqa: F401
-
-    t = T.from_tla_json(rec["t"]) if hasattr(T, "from_tla_json") else json_term(rec["t"])
+    t = json_term(rec["t"])
     real = T.concretise_pool(t)
     case = {"record": {k: v for k, v in rec.items() if k in ("id", "op")}, "term": T.show(t)}
     if clause == "CleanupKeepsValue":
@@ -189,7 +197,7 @@ def graph_replay(chk, rep, tier):
     d = tempfile.mkdtemp(prefix="vf_dot_")
     path = os.path.join(d, "g.dot")
     try:
-        cfg = P.pool_cfg(init="PoolGraphInit", maps="PoolGraphMaps", pairs="PoolGraphPairs", neighbours="NoNeighbours",
+        cfg = P.pool_cfg(init="PoolGraphInit", maps="PoolGraphMaps", pairs="PoolGraphPairs", vary=False,
                          max_ops=2 if tier == "thorough" else 2, check=False)
         res = tlc.run("ExprOps_MC", cfg, workers=1, dump_dot=path, timeout=900)
         text = open(path).read()
